@@ -154,6 +154,11 @@ class P(Prop):
     # ------------------------------------------------------------------ oracles
     def check_read(self, ast, text):
         case = {"fn": "read", "text": text}
+        if self.rng.random() < 0.3:
+            o0, c0 = call(cg.io.bench_to_circuit, text, "top")
+            if o0 == "ok":
+                gen.poison_result(self.rng, c0)
+                self.stats.bump("history:earlier-result-edited")
         o, c = call(cg.io.bench_to_circuit, text, "top")
         self.search_cases += 1
         defined = {g[0] for g in ast.gates} | {q for q, _ in ast.dffs} | set(ast.inputs)
@@ -251,6 +256,7 @@ class P(Prop):
                 v = rng.choice(sorted(c.graph.nodes))
                 c = cg.tx.relabel(c, {v: "_" + v})
             self.check_roundtrip(c)
+            self.again_after_edit(c, lambda: self.check_roundtrip(c), p=0.2)
             if self.too_many():
                 break
 
